@@ -336,7 +336,13 @@ Lemma after_drop_VB orig b acc p : VB b acc p -> Full (body_src b) -> TailOf ori
 Proof.
   intros HV Hfull Htail. destruct (VB_rest _ _ _ HV) as [q [Hq Hlen]].
   destruct (drain_VB (body_fuel b) b acc p q HV Hq Hlen) as [b' [D1 [D2 [[D3 D4] _]]]].
-  exists (segs (body_src b')). unfold after_drop. rewrite body_fuel_bext, D1, body_src_bext.
+  exists (segs (body_src b')). unfold after_drop. rewrite body_fuel_bext, D1, body_src_bext. cbv zeta.
+  (* (fix F20c) nothing is held beyond the body: the carry is empty *)
+  assert (Hc : carry_of (ext later (body_src b')) = []).
+  { pose proof (Full_reach _ (D4 Hfull)) as Hr. rewrite D2 in Hr. unfold src_rest in Hr. symmetry in Hr.
+    apply app_eq_nil in Hr. destruct Hr as [Hr1 Hr2]. apply app_eq_nil in Hr2. destruct Hr2 as [Hr2 _].
+    unfold carry_of, ext. cbn [bbuf lo]. rewrite Hr1, Hr2. reflexivity. }
+  rewrite Hc. cbn [with_carry ext segs].
   split; [reflexivity|]. split.
   - apply Full_reach_nil; [exact (D4 Hfull)|exact D2].
   - exact (TailOf_trans _ _ _ Htail D3).
